@@ -13,7 +13,7 @@ From Verif.Base Require Import Bytes.
 From Verif.Codec Require Import Packets Decode Encode.
 From Verif.Gateway Require Import GwTypes GwStep GwWf GwRun Sound_C16 Sound_C16b.
 From Verif.Client Require Import ClTypes ClStep Sound_Client.
-From Verif.System Require Import Compose ComposeProofs ComposeProofs2_aux ComposeProofs2 ComposeLoss ComposeLoss2.
+From Verif.System Require Import Compose ComposeProofs ComposeProofs2_aux ComposeProofs2 ComposeLoss ComposeLoss2 ComposeSleep ComposeSleepLoss.
 From Verif.Checkers Require Import ChkCodec ChkGw ChkGw5 ChkCl.
 Open Scope N_scope.
 
@@ -136,3 +136,27 @@ Theorem C16_client_answers_every_PUBREL :
     chk_C17 cfg s ev (snd (cl_step cfg s ev)) = [].
 Proof. exact chk_C17_partial. Qed.
 Print Assumptions C16_client_answers_every_PUBREL.
+
+(* The session does not split when the gateway's reply to the sleep DISCONNECT is lost (repaired defect a82266a:
+   the reply to the REPEATED DISCONNECT used to be queued because the session was asleep already; Sleep() then
+   failed and every later broker message was queued for good).  From any connected quiescent state, for every
+   sleep duration: the client retransmits the same DISCONNECT after its RetryDelay, the gateway answers AT ONCE
+   with an empty buffer, and client and gateway are asleep together (Sleeping), the wake-up due RetryDelay + ms
+   after the call - from where the sleep-cycle theorems of C26 (ComposeSleep.e2e_wake_up) continue. *)
+Theorem C16_sleep_survives_a_lost_disconnect_reply :
+  forall cfg y subs id ms d, QuietS cfg y subs ->
+    1000 <= ms -> ms / 1000 < 65536 ->
+    gw_keepalive (y_gw y) = 0 \/ ms / 1000 <= gw_keepalive (y_gw y) ->
+    1 <= k_rcount (e_cl cfg) -> 0 < k_rdelay (e_cl cfg) ->
+    nth_fault (e_c2g cfg) (y_c2g_k y) = FDeliver -> nth_fault (e_c2g cfg) (S (y_c2g_k y)) = FDeliver ->
+    nth_fault (e_g2c cfg) (y_g2c_k y) = FDrop -> nth_fault (e_g2c cfg) (S (y_g2c_k y)) = FDeliver ->
+    k_rdelay (e_cl cfg) <= d -> d < k_rdelay (e_cl cfg) + ms ->
+    let t := gw_now (y_gw y) in
+    let T1 := t + k_rdelay (e_cl cfg) in
+    exists y', sys_run cfg y [SCall id (ASleep ms); SAdv d] =
+      ([[SoC2G t FDeliver (pack (Disconnect (ms / 1000))); SoG2C t FDrop (pack (Disconnect 0))];
+        [SoC2G T1 FDeliver (pack (Disconnect (ms / 1000))); SoG2C T1 FDeliver (pack (Disconnect 0))]], y') /\
+      Sleeping cfg y' subs id (T1 + ms) [] /\ gw_now (y_gw y') = t + d /\ y_br y' = y_br y /\
+      y_c2g_k y' = S (S (y_c2g_k y)) /\ y_g2c_k y' = S (S (y_g2c_k y)).
+Proof. exact ComposeSleepLoss.C16_sleep_survives_a_lost_disconnect_reply. Qed.
+Print Assumptions C16_sleep_survives_a_lost_disconnect_reply.
